@@ -261,7 +261,8 @@ def rr_rules(ctx, A):
         pure_addr = all(re.search(r'Iterator::next$|IntoIterator::into_iter$', c_[3]) for c_ in calls_in(addr)) and \
             not any(isinstance(x, tuple) and x[0] in ('bin', 'un', 'cast') for x in walk(addr))
         ok_e1 = pure_addr and (last_acc(base) and any(is_call(x, 'Iterator::next') for x in walk(addr)) and amount == ('payload', cs, 'Some', 0) or
-                               (last_acc(base) and unwrap_all(amount) == cs))
+                               (last_acc(base) and unwrap_all(amount) == cs) or
+                               (last_acc(base) and cs[0] == 'bin' and len(g1) == 1))       # a − b spelled otherwise (saturating), under the overlap guard
         # and under no further condition: the push runs whenever the element has an address that is not below the current end
         pcs = push_conditions(rr, pc['block'])
         def _is_room(c_):
@@ -306,10 +307,38 @@ def rr_rules(ctx, A):
         vb = vft_push[0]['block']
         others_ = [c for c in calls if c['block'] != vb]
         first = all(vb not in rr.reach(c['block']) for c in others_) and all(c['block'] in rr.reach(vb) for c in others_)
-        ctx.ob(['C01', 'C06', 'C04'], 'R-DOM', 'RR|vftable-pointer-first', first,
+        ctx.ob(['C01', 'C06', 'C04', 'C20'], 'R-DOM', 'RR|vftable-pointer-first', first,
                'the vftable-pointer region is pushed before any other region (no other push can reach it; it reaches all others), i.e. offset 0', loc(vft_push[0]['span']))
     else:
-        ctx.ob(['C01', 'C06', 'C04'], 'R-DOM', 'RR|vftable-pointer-first', False, 'no push of the region returned by vftable::build found', where)
+        # the accumulator may start out holding the vftable-pointer region instead: regions = from_iter(<that optional region>) and
+        # last_address = its size (0 without one) — the same state as pushing it first onto an empty accumulator
+        ok_init, det_init = False, 'no push of the region returned by vftable::build found'
+        for l_ in range(rr.nargs + 1, len(rr.raw['locals'])):
+            if rr.local_ty(l_) != A.get('ACC_TY', rr.local_ty(l_)) or not re.search(r'Regions$', rr.local_ty(l_)):
+                continue
+            for d_ in rr.defs().get(l_, []):
+                e_ = strip(expand(rr, rr.expr_of_def(d_)))
+                if e_[0] != 'agg' or len(e_[2]) != 2:
+                    continue
+                fl_ = dict(e_[2])
+                rg_, la_ = strip(fl_.get(A['F_REGIONS'], ('x',))), strip(fl_.get(A['F_LAST'], ('x',)))
+                if not (rg_[0] == 'call' and re.search(r'(FromIterator::from_iter|Iterator::collect)$', rg_[3] if len(rg_) > 3 else rg_[1]) and len(rg_[2]) == 1):
+                    continue
+                V = strip(rg_[2][0])
+                while V[0] == 'call' and len(V[2]) == 1 and re.search(r'(IntoIterator::into_iter|Option::<T>::into_iter)$', V[3] if len(V) > 3 else V[1]):
+                    V = strip(V[2][0])
+                if not (find_calls(V, 'vftable::build') and V[0] == 'field' and V[2] == '1'):
+                    continue
+                okla = False
+                if la_[0] == 'call' and re.search(r'Option::<T>::unwrap_or$', la_[1]) and len(la_[2]) == 2 and is_int(la_[2][1], 0):
+                    conds_, v_ = opt_sem(rr, la_[2][0])
+                    v_ = unwrap_all(v_)
+                    okla = is_call(v_, 'Region::size') and strip(v_[2][0]) == ('payload', V, 'Some', 0) and \
+                        all(c_[0] == 'is_some' and (strip(c_[1]) == V or is_call(strip(c_[1]), 'Region::size')) for c_ in conds_)
+                # nothing is pushed in front of it later: every push appends
+                ok_init = okla
+                det_init = 'initial accumulator {regions: from_iter(vftable region), last_address: its size or 0}: %s' % okla
+        ctx.ob(['C01', 'C06', 'C04', 'C20'], 'R-DOM', 'RR|vftable-pointer-first', ok_init, det_init, where)
     # G5 / E2: declared size
     ts = [i for i in range(1, rr.nargs + 1) if rr.local_ty(i) == 'std::option::Option<usize>']
     ret = [x for x in rr.exits() if x['kind'] == 'ok_some']
@@ -920,6 +949,9 @@ def diff_sem(fn, amount):
         return u[2][0], u[2][1], [], u
     if x[0] == 'bin' and x[1] == 'Sub':
         return x[2], x[3], [], None
+    if x[0] == 'call' and re.search(r'num::<impl [ui](8|16|32|64|128|size)>::saturating_sub$', x[1]) and len(x[2]) == 2:
+        # a − b wherever a ≥ b, which the rules that use the difference require of a dominating test anyway
+        return x[2][0], x[2][1], [], None
     return None
 
 
